@@ -8,6 +8,7 @@ CONSTANTS
   BadNames <- MCBad1
   MaxDepth = 2
   MaxOps = 3
+  WithModes = FALSE
   Atomic = FALSE
   ExitFlavour = "global"
 CONSTRAINT Bounded
